@@ -156,6 +156,16 @@ Picked ==
               SFor("k", "map", <<EVar("m", TMap(T_num))>>, <<SAsg(EVar("s", T_str), EBin("+", EVar("s", T_str), EVar("k", T_str))),
                      SIf(<<EBin("==", EVar("k", T_str), EStr(<<97>>))>>, << <<SCall(ECallB("del", <<EVar("m", TMap(T_num)), EStr(<<99>>)>>)), SAsg(EDot(EVar("m", TMap(T_num)), <<122>>), Num(9))>> >>, <<>>)>>),
               Pr(<<EVar("s", T_str), EVar("m", TMap(T_num))>>)>>, <<>>, <<>>),
+    \* a function that is called before the declaration of a global it reads / assigns / indexes has been executed:
+    \* a run-time panic (the variable has not been set yet), after the effects so far
+    [Program(<<Pr(<<Num(1)>>), SCall(ECallU("early", NoSig, <<>>)), SInfer("g", Num(1)), Pr(<<GV>>)>>,
+             <<FuncDef("early", <<>>, <<>>, T_none, <<Pr(<<Num(2)>>), Pr(<<GV>>)>>)>>, <<>>) EXCEPT !.fl = TRUE],
+    [Program(<<Pr(<<Num(1)>>), SCall(ECallU("early", NoSig, <<>>)), SInfer("g", Num(1)), Pr(<<GV>>)>>,
+             <<FuncDef("early", <<>>, <<>>, T_none, <<Pr(<<Num(2)>>), SAsg(GV, Num(7)), Pr(<<Num(3)>>)>>)>>, <<>>) EXCEPT !.fl = TRUE],
+    [Program(<<Pr(<<Num(1)>>), SCall(ECallU("early", NoSig, <<>>)), SInfer("ga", EArr(<<Num(1)>>)), Pr(<<EVar("ga", TArr(T_num))>>)>>,
+             <<FuncDef("early", <<>>, <<>>, T_none, <<Pr(<<Num(2)>>), SAsg(EIdx(EVar("ga", TArr(T_num)), Num(0)), Num(7)), Pr(<<Num(3)>>)>>)>>, <<>>) EXCEPT !.fl = TRUE],
+    [Program(<<SInfer("g", Num(1)), SCall(ECallU("early", NoSig, <<>>)), Pr(<<GV>>), SInfer("h", Num(1)), Pr(<<EVar("h", T_num)>>)>>,
+             <<FuncDef("early", <<>>, <<>>, T_none, <<SAsg(GV, Num(7)), SIf(<<EBin(">", GV, Num(9))>>, <<<<SAsg(EVar("h", T_num), Num(8))>>>>, <<>>), Pr(<<Num(3)>>)>>)>>, <<>>) EXCEPT !.fl = TRUE],
     \* break leaves exactly the innermost loop
     Program(<<SFor("i", "num", <<Num(3)>>,
                  <<SFor("j", "num", <<Num(3)>>, <<SIf(<<EBin("==", EVar("j", T_num), Num(1))>>, <<<<SBrk>>>>, <<>>), Pr(<<IV, EVar("j", T_num)>>)>>),
